@@ -48,27 +48,59 @@ theorem c13_immediate (s : Srv) (uri : Text) (pkgs : List PkgInfo) (reg : String
   · show lastPub uri [Msg.pub uri (diagnose { s with docs := setDoc s.docs uri pkgs } reg pkgs)] = _
     rw [hdg]; simp [lastPub]
 
-/-- **the completion of a fetch task publishes the diagnosis of the revision the task was spawned for**
-    (its snapshot), against the cache at that moment — and nothing else -/
-theorem c13_task_publishes_snapshot (s : Srv) (i : Nat) (t : Task) (m : Msg) (h : m ∈ (finishTask s i t).2) :
-    ∃ uri, t.uri = some uri ∧ m = .pub uri (diagnose (finishTask s i t).1 (String.ofList t.reg) t.pkgs) := by
-  unfold finishTask at h ⊢
+/-- finishing a task only removes it: cache, documents and configuration are untouched -/
+theorem finishTask_state (s : Srv) (i : Nat) (t : Task) : (finishTask s i t).1 = { s with tasks := s.tasks.eraseIdx i } := by
+  unfold finishTask
+  cases t.uri with
+  | none => rfl
+  | some uri =>
+    simp only
+    split
+    · rfl
+    · cases s.docs.find? (·.1 == uri) with
+      | none => rfl
+      | some x => rfl
+
+/-- **the completion of a fetch task publishes the diagnosis of the text its document has NOW**, against the
+    cache at that moment — and nothing else (nothing at all if the document was closed meanwhile) -/
+theorem c13_task_publishes_current (s : Srv) (i : Nat) (t : Task) (m : Msg) (h : m ∈ (finishTask s i t).2) :
+    ∃ uri pkgs, t.uri = some uri ∧ (s.docs.find? (·.1 == uri)).map (·.2) = some pkgs ∧
+      m = .pub uri (diagnose (finishTask s i t).1 (String.ofList t.reg) pkgs) := by
+  rw [finishTask_state]
+  unfold finishTask at h
   cases hu : t.uri with
   | none => simp [hu] at h
   | some uri =>
-    simp only [hu] at h ⊢
+    simp only [hu] at h
     split at h
     · cases h
-    · rename_i hf
-      simp only [hf, if_false, List.mem_singleton] at h ⊢
-      exact ⟨uri, rfl, h⟩
+    · cases hd : (s.docs.find? (·.1 == uri)) with
+      | none => simp only [hd] at h; cases h
+      | some x =>
+        obtain ⟨u, pkgs⟩ := x
+        simp only [hd, List.mem_singleton] at h
+        exact ⟨uri, pkgs, rfl, by rw [hd]; rfl, h⟩
 
-/-- everything a registry reply makes the server publish comes from the completion of the task that
-    held the claim, with that task's own snapshot and document -/
-theorem c13_reply_publishes_only_snapshots (s : Srv) (reg name : Text) (o : Fetch.Outcome) (m : Msg)
+theorem reply_docs (s : Srv) (reg name : Text) (o : Fetch.Outcome) : (Server.reply s reg name o).1.docs = s.docs := by
+  unfold Server.reply
+  cases hi : s.tasks.findIdx? (holds reg name) with
+  | none => rfl
+  | some i =>
+    simp only
+    cases ht : s.tasks[i]? with
+    | none => rfl
+    | some t =>
+      simp only
+      split
+      · rw [finishTask_state]
+      · rfl
+
+/-- everything a registry reply makes the server publish comes from the completion of the task that held the
+    claim, for that task's document, and is the diagnosis of the document's CURRENT text -/
+theorem c13_reply_publishes_only_current (s : Srv) (reg name : Text) (o : Fetch.Outcome) (m : Msg)
     (h : m ∈ (Server.reply s reg name o).2) :
-    ∃ t ∈ s.tasks, ∃ uri, t.uri = some uri ∧ t.reg = reg ∧
-      m = .pub uri (diagnose (Server.reply s reg name o).1 (String.ofList reg) t.pkgs) := by
+    ∃ t ∈ s.tasks, ∃ uri pkgs, t.uri = some uri ∧ t.reg = reg ∧ (s.docs.find? (·.1 == uri)).map (·.2) = some pkgs ∧
+      m = .pub uri (diagnose (Server.reply s reg name o).1 (String.ofList reg) pkgs) := by
   cases hi : s.tasks.findIdx? (holds reg name) with
   | none => unfold Server.reply at h; rw [hi] at h; cases h
   | some i =>
@@ -92,44 +124,24 @@ theorem c13_reply_publishes_only_snapshots (s : Srv) (reg name : Text) (o : Fetc
                        fetched := if (applyOutcome s.db ⟨reg, name⟩ s.now o).2 then t.fetched ++ [name] else t.fetched } := by
           unfold Server.reply; rw [hi]; simp only [ht]; rw [if_pos hw]
         rw [heq] at h ⊢
-        obtain ⟨uri, hu, hm⟩ := c13_task_publishes_snapshot _ i _ m h
-        refine ⟨t, hmem, uri, hu, hreg, ?_⟩
-        rw [hm]
-        show Msg.pub uri (diagnose _ (String.ofList t.reg) t.pkgs) = Msg.pub uri (diagnose _ (String.ofList reg) t.pkgs)
-        rw [hreg]
+        obtain ⟨uri, pkgs, hu, hd, hm⟩ := c13_task_publishes_current _ i _ m h
+        refine ⟨t, hmem, uri, pkgs, hu, hreg, hd, ?_⟩
+        · rw [hm]
+          show Msg.pub uri (diagnose _ (String.ofList t.reg) pkgs) = Msg.pub uri (diagnose _ (String.ofList reg) pkgs)
+          rw [hreg]
       · have heq : (Server.reply s reg name o).2 = [] := by
           unfold Server.reply; rw [hi]; simp only [ht]; rw [if_neg hw]
         rw [heq] at h; cases h
 
-theorem reply_docs (s : Srv) (reg name : Text) (o : Fetch.Outcome) : (Server.reply s reg name o).1.docs = s.docs := by
-  unfold Server.reply
-  cases hi : s.tasks.findIdx? (holds reg name) with
-  | none => rfl
-  | some i =>
-    simp only
-    cases ht : s.tasks[i]? with
-    | none => rfl
-    | some t =>
-      simp only
-      split
-      · unfold finishTask
-        simp only
-        cases t.uri with
-        | none => rfl
-        | some u => simp only; split <;> split <;> rfl
-      · rfl
-
-/-- **C13 on the schedules where it holds**: when a fetch task completes and its document still has
-    the text the task was spawned for (no edit of that document in between), what it publishes is
-    exactly the diagnosis of the document's latest text against the cache at that moment -/
-theorem c13_partial (s : Srv) (reg name : Text) (o : Fetch.Outcome) (uri : Text) (ds : List Diag)
-    (h : Msg.pub uri ds ∈ (Server.reply s reg name o).2)
-    (hcur : ∀ t ∈ s.tasks, t.uri = some uri → (s.docs.find? (·.1 == uri)).map (·.2) = some t.pkgs) :
+/-- **no stale republication, on EVERY schedule**: whatever a completed fetch publishes for a document is exactly
+    the diagnosis of that document's latest text against the cache at that moment — edits made while the fetch was
+    running included (this was false on the pinned tree: F-C13-1, repaired) -/
+theorem c13_republication_is_current (s : Srv) (reg name : Text) (o : Fetch.Outcome) (uri : Text) (ds : List Diag)
+    (h : Msg.pub uri ds ∈ (Server.reply s reg name o).2) :
     some ds = wanted (Server.reply s reg name o).1 uri (String.ofList reg) := by
-  obtain ⟨t, ht, uri', hu, _, hm⟩ := c13_reply_publishes_only_snapshots s reg name o _ h
+  obtain ⟨t, _, uri', pkgs, _, _, hd, hm⟩ := c13_reply_publishes_only_current s reg name o _ h
   simp only [Msg.pub.injEq] at hm
   obtain ⟨rfl, rfl⟩ := hm
-  have hd := hcur t ht hu
   unfold wanted
   rw [reply_docs]
   cases hf : s.docs.find? (·.1 == uri) with
@@ -139,7 +151,7 @@ theorem c13_partial (s : Srv) (reg name : Text) (o : Fetch.Outcome) (uri : Text)
     simp only [hf, Option.map_some, Option.some.injEq] at hd ⊢
     rw [hd]
 
-/-! ### the full statement, and the two schedules on which the pinned tree violates it -/
+/-! ### the full statement, and the schedule on which it still fails -/
 
 /-- full C13 (kept visible; FALSE): for every schedule that ends quiescent, every document's last
     publication is the diagnosis of its latest text against the final cache -/
@@ -153,13 +165,12 @@ def uriA : Text := "file:///w/a/package.json".toList
 def uriB : Text := "file:///w/b/package.json".toList
 def okReply : Fetch.Outcome := .ok ["4.17.20".toList, "4.17.21".toList, "4.18.0".toList] []
 
-/-- F-C13-1 (stale overwrite): open, edit, first fetch completes ⇒ the diagnostics of the OLD revision
-    are published last.  open("4.17.20") ; change("4.18.0") ; reply(lodash) -/
-theorem c13_deviation_stale :
+/-- the schedule of F-C13-1 (open, edit, the first fetch completes), after the repair: the task re-reads the
+    document, so the last publication is the diagnosis of the LATEST text -/
+theorem c13_edit_during_fetch_example :
     let evs := [Ev.edit uriA [lodash "4.17.20"], Ev.edit uriA [lodash "4.18.0"], Ev.reply "npm".toList "lodash".toList okReply]
     let r := run {} evs
-    r.1.tasks.isEmpty = true ∧ wanted r.1 uriA "npm" = some [] ∧
-    (lastPub uriA r.2).map (fun ds => ds.map (·.msg)) = some ["Update available: 4.17.20 -> 4.18.0".toList] := by
+    r.1.tasks.isEmpty = true ∧ wanted r.1 uriA "npm" = some [] ∧ lastPub uriA r.2 = some [] := by
   decide
 
 /-- F-C13-2 (skipped republication): two documents need the same uncached package; the second task's
@@ -173,8 +184,8 @@ theorem c13_deviation_skipped :
 
 theorem c13_full_false : ¬ c13_full := by
   intro h
-  have := h [Ev.edit uriA [lodash "4.17.20"], Ev.edit uriA [lodash "4.18.0"], Ev.reply "npm".toList "lodash".toList okReply]
-    uriA "npm" (by decide) (by show _ = true; decide) ⟨_, List.mem_cons_self⟩
+  have := h [Ev.edit uriA [lodash "4.17.20"], Ev.edit uriB [lodash "4.17.21"], Ev.reply "npm".toList "lodash".toList okReply]
+    uriB "npm" (by decide) (by show _ = true; decide) ⟨_, List.mem_cons_of_mem _ List.mem_cons_self⟩
   revert this
   decide
 
